@@ -633,3 +633,112 @@ def run_impl(case):
         return dict(out=outs, viol=viol, info=dict(nontrivial=observed_after_edit, stats=stats))
     finally:
         w.close()
+
+
+# ---------------------------------------------------------------------------------------
+# regenerated table: the registration data of Groups / Kerning (class-level dicts and names)
+# ---------------------------------------------------------------------------------------
+
+GEN_FILE = os.path.join("DefconModel", "Gen", "KernTables.lean")
+
+
+def _class_attrs(path, cls):
+    import ast
+    tree = ast.parse(open(path).read())
+    for node in tree.body:
+        if isinstance(node, ast.ClassDef) and node.name == cls:
+            attrs = {}
+            for st in node.body:
+                if isinstance(st, ast.Assign) and len(st.targets) == 1 and isinstance(st.targets[0], ast.Name):
+                    attrs[st.targets[0].id] = st.value
+            return attrs
+    raise ValueError("class %s not found in %s" % (cls, path))
+
+
+def _lean_str(s):
+    return '"' + s.replace("\\", "\\\\").replace('"', '\\"') + '"'
+
+
+def _factories(value, where):
+    """[(name, factory function name, ('str', s) | ('coll', [s...]))] from a representationFactories dict literal"""
+    import ast
+    if not isinstance(value, ast.Dict):
+        raise ValueError("%s.representationFactories is not a dict literal" % where)
+    res = []
+    for k, v in zip(value.keys, value.values):
+        if not (isinstance(k, ast.Constant) and isinstance(k.value, str)):
+            raise ValueError("%s: non-literal representation name" % where)
+        if not (isinstance(v, ast.Call) and isinstance(v.func, ast.Name) and v.func.id == "dict" and not v.args):
+            raise ValueError("%s[%s]: not a dict(...) call" % (where, k.value))
+        kw = dict((x.arg, x.value) for x in v.keywords)
+        if set(kw) != {"factory", "destructiveNotifications"}:
+            raise ValueError("%s[%s]: unexpected keywords %s" % (where, k.value, sorted(kw)))
+        if not isinstance(kw["factory"], ast.Name):
+            raise ValueError("%s[%s]: factory is not a name" % (where, k.value))
+        d = kw["destructiveNotifications"]
+        if isinstance(d, ast.Constant) and isinstance(d.value, str):
+            destr = ("str", d.value)
+        elif isinstance(d, (ast.Tuple, ast.List, ast.Set)) and all(
+                isinstance(e, ast.Constant) and isinstance(e.value, str) for e in d.elts):
+            destr = ("coll", [e.value for e in d.elts])
+        else:
+            raise ValueError("%s[%s]: destructiveNotifications of unrecognised shape" % (where, k.value))
+        res.append((k.value, kw["factory"].id, destr))
+    return res
+
+
+def extract(repo, lean_dir):
+    import ast
+    gpath = os.path.join(repo, "Lib", "defcon", "objects", "groups.py")
+    kpath = os.path.join(repo, "Lib", "defcon", "objects", "kerning.py")
+    g = _class_attrs(gpath, "Groups")
+    k = _class_attrs(kpath, "Kerning")
+    gf = _factories(g["representationFactories"], "Groups")
+    kf = _factories(k["representationFactories"], "Kerning")
+    posts = []
+    for attr in ("changeNotificationName", "setItemNotificationName", "deleteItemNotificationName",
+                 "clearNotificationName", "updateNotificationName"):
+        v = g.get(attr)
+        if not (isinstance(v, ast.Constant) and isinstance(v.value, str)):
+            raise ValueError("Groups.%s is not a string literal" % attr)
+        posts.append(v.value)
+
+    def destr(d):
+        if d[0] == "str":
+            return ".str " + _lean_str(d[1])
+        return ".coll [" + ", ".join(_lean_str(x) for x in d[1]) + "]"
+
+    def table(rows):
+        if not rows:
+            return "[]"
+        return "[\n" + ",\n".join("  (%s, %s, %s)" % (_lean_str(n), _lean_str(f), destr(d)) for n, f, d in rows) + "]"
+
+    text = (
+        "/-\nGENERATED by harness/props/c19.py (extract) from Lib/defcon/objects/groups.py and kerning.py.\n"
+        "Do not edit: regenerated on every run of ./check C19; Props/C19.lean proves by `decide` that this data is\n"
+        "what M-Kern models (all four tables destroyed by Groups.Changed and by nothing else Groups posts).\n-/\n"
+        "import DefconModel.Kern\n\nnamespace DefconModel.Gen.KernTables\nopen DefconModel.Kern\n\n"
+        "/-- `Groups.representationFactories`: (name, factory function, destructiveNotifications) -/\n"
+        "def groupsFactories : List (String × String × Destr) := %s\n\n"
+        "/-- `Kerning.representationFactories` -/\n"
+        "def kerningFactories : List (String × String × Destr) := %s\n\n"
+        "/-- what a `Groups` object posts: change, set-item, delete-item, clear, update -/\n"
+        "def groupsPosts : List String := [%s]\n\n"
+        "end DefconModel.Gen.KernTables\n" % (table(gf), table(kf), ", ".join(_lean_str(x) for x in posts)))
+    path = os.path.join(lean_dir, GEN_FILE)
+    old = open(path).read() if os.path.exists(path) else None
+    changed = []
+    if old != text:
+        os.makedirs(os.path.dirname(path), exist_ok=True)
+        with open(path, "w") as f:
+            f.write(text)
+        changed.append(GEN_FILE)
+    return changed, dict(obligations=0, tables={"Groups.representationFactories": len(gf),
+                                                 "Kerning.representationFactories": len(kf),
+                                                 "Groups notification names": len(posts)})
+
+
+def search(rng, tier, broken):
+    """directed search after a broken table obligation: cache-filling lookups around every kind of group edit"""
+    for i in range(400 if tier == "quick" else 4000):
+        yield gen_case(rng, 14, "valid" if i % 3 else "load")
